@@ -476,6 +476,12 @@ class DFXPWriter(BaseWriter):
                 line = self._recreate_span(
                     line, node, dfxp, caption_set, caption, lang)
 
+        if self.open_span:
+            # a style that is never ended still has to be closed here: it
+            # must not leak into the next caption or the next write()
+            line = line.rstrip() + '</span>'
+            self.open_span = False
+
         return line.rstrip()
 
     def _recreate_span(self, line, node, dfxp, caption_set=None, caption=None,
